@@ -172,3 +172,10 @@ def coverage_extra(tot):
     roots = {k[5:]: v for k, v in tot["stats"].items() if k.startswith("root:")}
     rej = {k: v for k, v in tot["stats"].items() if k.startswith("build_rejected")}
     return dict(root_class_reach=roots, constructor_rejections=rej, classes_never_built=[c for c in zoo.ALL_CLASSES if c not in roots])
+
+
+def finish(ctx):
+    # thorough tier, shard 0: the repository's own test-suite as a second workload under this property's monitor
+    from .. import suite
+
+    suite.ingest(ctx, "denote", "suite.denote")
